@@ -67,5 +67,10 @@ with open(os.path.join(V, 'notes', 'coverage_quick.txt'), 'w') as f:
     f.write('statement coverage of pion/ice non-test sources by the quick tier of all checks (rapid tests only, no native fuzz)\n' + total + '\n\n')
     for c, fn, fu in sorted(rows):
         f.write('%5.1f%%  %s  %s\n' % (c, fn, fu))
+with open(os.path.join(V, 'notes', 'coverage_quick_uncovered.txt'), 'w') as f:
+    f.write('blocks of pion/ice non-test sources not executed by the quick tier (file:startline.col,endline.col statements)\n')
+    for (fn, pos, n), c in sorted(blocks.items(), key=lambda kv: (kv[0][0], int(kv[0][1].split('.')[0]))):
+        if c == 0 and '/zz_verif_' not in fn and 'internal/fakenet' not in fn:
+            f.write('%s:%s %d\n' % (fn.replace('github.com/pion/ice/v4/', ''), pos, n))
 print(total)
 shutil.rmtree(work, ignore_errors=True)
